@@ -479,12 +479,12 @@ pub fn flex_render(
             let mut surf = match direction {
                 Axis::Horizontal => {
                     let start = child_layout.position().col;
-                    let end = start + child_layout.size().width;
+                    let end = start.saturating_add(child_layout.size().width);
                     surf.view_mut(.., start..end)
                 }
                 Axis::Vertical => {
                     let start = child_layout.position().row;
-                    let end = start + child_layout.size().height;
+                    let end = start.saturating_add(child_layout.size().height);
                     surf.view_mut(start..end, ..)
                 }
             };
